@@ -59,6 +59,13 @@ TABLE = {
                      "predicate-call count and delivered results after every step.",
                 technique="TLA+ state machine (LazyOps/Lazy) model checked by TLC + exported histories replayed with a logging iterator + TLC trace validation",
                 ref="7 C07"),
+    "C04": dict(text="TLC enumerates every history (depth-bounded, plus random walks) of full, partial (k results then close/drop) "
+                     "and exception-aborted evaluations over a pool of two queries sharing variables; each history is replayed "
+                     "with generated G1/G2 programs and TLC judges every evaluation against the denotation irrespective of its "
+                     "position; duplicate-listing domains must answer the same on first and later evaluations; a before/after "
+                     "snapshot of user lists and objects must be unchanged.",
+                technique="TLA+ session machine (EvalSession) histories exported by TLC + replay with fault injection into user predicates + TLC trace validation against EQLSem",
+                ref="7 C04"),
 }
 
 REASON_PENDING = "check not built yet (work in progress; see DESIGN.md section 10)"
